@@ -3,8 +3,9 @@
 
    The C++ algorithms are tied by translation validation: every SelectionResult the real SelectCoinsBnB /
    CoinGrinder / SelectCoinsSRD / KnapsackSolver return on the generated pools is judged by the extracted
-   `valid_selection`, `optimal_check` and `none_check`, whose meaning is proved below; SelectCoinsBnB is
-   in addition transcribed (`select_coins_bnb`) and proved to return only valid selections.
+   `valid_selection`, `optimal_check` and `none_check`, whose meaning is proved below; SelectCoinsBnB and
+   CoinGrinder are in addition transcribed (`select_coins_bnb`, `coin_grinder`), proved to return only valid
+   selections, and compared output for output (selection, waste, completed flag, tries) with the C++.
 
    Full statement of the property's second sentence for the C++ code ("when BnB or CoinGrinder report a
    complete search no other admissible subset has a strictly better objective") is NOT proved for the
@@ -127,6 +128,26 @@ Theorem C40_bnb_model_fuel_sufficient : forall sffo pool la target coc maxw high
   bnb_loop pool sffo la target coc maxw high (Z.to_nat TOTAL_TRIES) (mkB [] 0 0 0 [] MAX_MONEY 0%nat 0 false) <> ItFuel.
 Proof. exact bnb_core_fuel_sufficient. Qed.
 Print Assumptions C40_bnb_model_fuel_sufficient.
+
+(* The transcription of CoinGrinder (sort by `descending_effval_weight`, lookahead, min_tail_weight, CUT / SHIFT, clone
+   skipping, TOTAL_TRIES): whatever it returns is a duplicate-free list of positions of the given pool holding positive
+   groups whose amount reaches target + change target and whose weight (reported as best_selection_weight) is within the
+   limit.  For every pool, target, change target and weight limit. *)
+Theorem C40_cg_model_returns_valid_selection : forall sffo pool target change_target maxw sel s w c t orig,
+  coin_grinder sffo pool target change_target maxw = (BnbSome sel s w c t, orig) ->
+  NoDup orig /\
+  Forall2 (fun i g => nth_error pool i = Some g) orig s /\
+  Forall (fun g => 0 < amt sffo g) s /\
+  target + change_target <= sum_by (amt sffo) s /\
+  sum_by g_weight s <= maxw /\
+  w = sum_by g_weight s.
+Proof. exact coin_grinder_valid. Qed.
+Print Assumptions C40_cg_model_returns_valid_selection.
+
+Theorem C40_cg_model_fuel_sufficient : forall sffo pool la mtw total_target maxw,
+  cg_loop pool sffo la mtw total_target maxw (Z.to_nat TOTAL_TRIES) (mkB [] 0 0 0 [] maxw 0%nat 0 false) MAX_MONEY <> CgFuel.
+Proof. exact cg_core_fuel_sufficient. Qed.
+Print Assumptions C40_cg_model_fuel_sufficient.
 
 (* non-vacuity: a pool of four coins at 10 sat/vB (long-term 5 sat/vB); BnB picks positions 2 and 0 (sorted-pool
    positions 0 and 2) for a target
